@@ -21,6 +21,19 @@ Record request := mkReq {
   rq_addr : N }.
 Definition header (n : bytes) (r : request) : option bytes := assoc n (rq_headers r).
 
+(** [extensions::uri_redirect_target] with the default [host::Options] ([extension_default] = "html",
+    [folder_default] = "index.html"): "<p>." -> "<p>.html", "<p>/" -> "<p>/index.html", the query is kept;
+    [None] when the URI is left as it is.  Used by the default Prime extension "Expand . and /"
+    (Model/Fixture.v [uri_redirect]) and, since kvarn 8ff8142, by [Collection::clear_page]. *)
+Definition redirect_target (r : request) : option request :=
+  match rev (rq_path r) with
+  | c :: _ =>
+      if c =? 46 then Some (mkReq (rq_method r) (rq_path r ++ B "html") (rq_query r) (rq_headers r) (rq_addr r))
+      else if c =? 47 then Some (mkReq (rq_method r) (rq_path r ++ B "index.html") (rq_query r) (rq_headers r) (rq_addr r))
+      else None
+  | [] => None
+  end.
+
 (** ---- what the layer below the cache returns ([FatResponse]) ---- *)
 Definition SP_NONE : N := 0. Definition SP_QUERY : N := 1. Definition SP_FULL : N := 2. Definition SP_MAXAGE : N := 3.
 Record fat := mkFat {
@@ -231,7 +244,22 @@ Section Layer.
   | OClearAll
   | OWait (ms : N).
 
-  Definition clear_page (r : request) (c : cache) : cache := c_remove (key_p r) (c_remove (key_pq r) c).
+  (** [Collection::clear_page] (src/host.rs): the two keys of the URI as given (inner fn [clear]) and, for
+      [<path>/] and [<path>.], the two keys of the URI the default redirect rewrites it to
+      ([extensions::uri_redirect_target]; applied whether or not the redirect extension is mounted). *)
+  Definition clear_uri (r : request) (c : cache) : cache := c_remove (key_p r) (c_remove (key_pq r) c).
+  Definition has_uri (r : request) (c : cache) : bool :=
+    match c_find (key_pq r) c, c_find (key_p r) c with None, None => false | _, _ => true end.
+  Definition clear_page (r : request) (c : cache) : cache :=
+    match redirect_target r with
+    | Some r' => clear_uri r' (clear_uri r c)
+    | None => clear_uri r c
+    end.
+  Definition page_cleared (r : request) (c : cache) : bool :=
+    has_uri r c || match redirect_target r with
+                   | Some r' => has_uri r' (clear_uri r c)
+                   | None => false
+                   end.
 
   Inductive obs :=
   | ObReply (rp : reply) (lg : list bytes)
@@ -243,8 +271,7 @@ Section Layer.
     | OReq r => let '(st', rp, lg) := serve st now r in (st', now, ObReply rp lg)
     | OClearPage r =>
         let '(c, hs) := st in
-        let had := match c_find (key_pq r) c, c_find (key_p r) c with None, None => false | _, _ => true end in
-        ((clear_page r c, hs), now, ObCleared true (cache_on && had))
+        ((clear_page r c, hs), now, ObCleared true (cache_on && page_cleared r c))
     | OClearAll => let '(c, hs) := st in (([], hs), now, ObNone)
     | OWait ms => (st, now + ms, ObNone)
     end.
